@@ -130,8 +130,8 @@ def gen_U(rng, valid, for_fn):
                                   for _ in range(3)])
                     U = U + E
         else:
-            kind = rng.weighted([("stretch", 3), ("shear", 3), ("entry", 2), ("improper", 2), ("neg", 1),
-                                 ("scale", 1), ("axis_scale", 1), ("axis_bump", 2), ("axis_entry", 1)])
+            kind = rng.weighted([("stretch", 3), ("shear", 3), ("tilt", 3), ("offdiag", 2), ("entry", 2), ("improper", 2),
+                                 ("neg", 1), ("scale", 1), ("axis_scale", 1), ("axis_bump", 2), ("axis_entry", 1)])
             R = random_rotation(rng)
             if kind.startswith("axis"):
                 # perturbations of rotations that contain exact 0 / +-1 entries (signed permutations and
@@ -161,6 +161,22 @@ def gen_U(rng, valid, for_fn):
                 s = rng.loguniform(3e-3, 0.3)
                 E = np.array([[rng.uniform(-s, s) for _ in range(3)] for _ in range(3)])
                 U = R + E
+            elif kind == "tilt":
+                # one column rotated towards another, lengths kept: only the ANGLES between columns are wrong
+                # (column norms stay 1, the determinant moves at second order only)
+                e_ = rng.loguniform(1.2e-3, 0.5)
+                i, j = rng.sample([0, 1, 2], 2)
+                U = R.copy()
+                U[:, i] = math.cos(e_) * R[:, i] + math.sin(e_) * R[:, j]
+            elif kind == "offdiag":
+                # U (I + A), A symmetric with zero diagonal: again angles only, to first order
+                A = np.zeros((3, 3))
+                sm = rng.loguniform(1.2e-3, 0.5)
+                for (i, j) in ((0, 1), (0, 2), (1, 2)):
+                    A[i, j] = A[j, i] = rng.uniform(-sm, sm)
+                i, j = rng.choice([(0, 1), (0, 2), (1, 2)])
+                A[i, j] = A[j, i] = sm if rng.chance(0.5) else -sm
+                U = R.dot(np.eye(3) + A)
             elif kind == "axis_scale":
                 sc = rng.loguniform(3e-3, 0.5) * (1 if rng.chance(0.7) else -1)
                 U = R * (1.0 + sc)
@@ -438,7 +454,8 @@ def generate(rng, tier, index):
                     ops.append(["pcall", fk, iid, rng.below(1 << 16), _pick_assign(rng, allow_invalid_assign), rd])
             else:
                 ops.append(["call", fk, iid, rd])
-    return {"property": PROPERTY, "config": {"fault_free": not (allow_invalid_assign or allow_preempt)},
+    return {"property": PROPERTY, "config": {"fault_free": not (allow_invalid_assign or allow_preempt),
+                                             "scribble": rng.chance(0.3)},
             "inputs": inputs, "ops": ops}
 
 
@@ -555,6 +572,25 @@ def execute(trace):
             raise _Violation("switch state differs from last valid assignment", where,
                              "activated=%r model=%r" % (cur, on))
 
+    scribble_rate = [1 if trace["config"].get("scribble") else 0]
+
+    def _freeze_and_scribble(v):
+        """returns a private deep copy of v and then overwrites every ndarray inside v in place"""
+        import copy as _copy
+        frozen = _copy.deepcopy(v)
+
+        def walk(x):
+            if isinstance(x, np.ndarray):
+                try:
+                    x[...] = 12345.0
+                except (ValueError, TypeError):
+                    pass
+            elif isinstance(x, (list, tuple)):
+                for y in x:
+                    walk(y)
+        walk(v)
+        return frozen
+
     slots = {}      # input id -> the caller's argument objects (created once, reused for every call)
     loaded = {}     # input id -> index of the spec whose content the slot currently holds
 
@@ -645,6 +681,11 @@ def execute(trace):
         finally:
             if use_trace:
                 sys.settrace(None)
+        if outcome == "ok" and scribble_rate[0] and (len(events) * 7 + len(fk)) % 3 == 0:
+            # the caller owns what it was handed back and may reuse it as scratch space; later calls must not care.
+            # (deterministic choice; the canonical value is taken first)
+            value = _freeze_and_scribble(value)
+            count("fault.caller_overwrites_returned_array")
         for a, k in zip(args, keep):
             if isinstance(a, np.ndarray) and a.tobytes() != k.tobytes():
                 # the callee wrote into the caller's array: recorded, and the caller's content is put back so that
